@@ -6,9 +6,9 @@ from . import core, props, modelio, oracles
 
 def main(prop, path):
     spec = props.PROPS.get(prop) or {}
-    if spec.get("replayer"):
+    if spec.get("replayer") or spec.get("replay"):
         # a property explored by function-level checks only replays its own payloads
-        return spec["replayer"](prop, path)
+        return (spec.get("replayer") or spec.get("replay"))(prop, path)
     r = json.load(open(path))
     cases = []
     if "case" in r:
